@@ -6,6 +6,7 @@ import TeleportModel.Generated.HostKeys
 import TeleportModel.Generated.Validate
 import TeleportModel.Generated.PacketScans
 import TeleportModel.Generated.KeeperKeys
+import TeleportModel.Generated.Parsers
 import TeleportModel.Driver.Loop
 /- Line protocol of C19 (see harness/c19_test.go and docs/C19.md). The model runs on the GENERATED tables. -/
 namespace TM.Driver.C19
@@ -46,7 +47,13 @@ def parseArgs : List PTy → List String → Option (List Arg)
   | .str :: ts, f :: fs => do let b ← unhex f; let r ← parseArgs ts fs; pure (.s b :: r)
   | .u64 :: ts, f :: fs => do let n ← u64? f; let r ← parseArgs ts fs; pure (.n n :: r)
   | .height :: ts, a :: b :: fs => do let x ← u64? a; let y ← u64? b; let r ← parseArgs ts fs; pure (.h x y :: r)
+  | .hash :: ts, f :: fs => do let b ← unhex f; let r ← parseArgs ts fs; pure (.hash b :: r)
   | _, _ => none
+
+def fieldCount : List PTy → Nat
+  | [] => 0
+  | .height :: r => 2 + fieldCount r
+  | _ :: r => 1 + fieldCount r
 
 def binding? (n : String) : Option Binding := AbiTuples.bindings.find? (fun b => b.name == n)
 
@@ -122,9 +129,120 @@ def clientIter (st : St) (name sub : Bytes) : List (Bytes × SV) :=
   let p := clientStorePrefixOf C name
   (prefixIter (p ++ sub) st.store).map (fun kv => (kv.1.drop p.length, kv.2))
 
-def step (st : St) (line : String) : St × String :=
+def showHeight (o : Outcome (UInt64 × UInt64)) : String :=
+  match o with
+  | .ok (r, h) => "ok " ++ toString r.toNat ++ "-" ++ toString h.toNat
+  | .err _ => "err"
+  | .panic _ => "panic"
+
+def cget (st : St) (name k : Bytes) : Option SV := storeGet (clientStorePrefixOf C name ++ k) st.store
+
+/-- DeleteAllSigner: walk the recent-signer keys; a key whose height does not parse stops with an error (what was
+    deleted so far stays deleted); every parsed height deletes the key DeleteSigner builds for it -/
+def delSigners (name : Bytes) : List (Bytes × SV) → St → St × String
+  | [], st => (st, "ok")
+  | kv :: r, st =>
+    match Parsers.signerKeyParsers.find? (fun p => p.fn == "DeleteAllSigner") with
+    | none => (st, "bad-op")
+    | some sp =>
+      match parseSignerKey sp Parsers.parseHeight kv.1 with
+      | .panic _ => (st, "panic")
+      | .err _ => (st, "err")
+      | .ok (rv, h) =>
+        match render HostKeys.bsc_deleteSignerKey [.h rv h] with
+        | none => (st, "bad-op")
+        | some k => delSigners name r { st with store := storeDel (clientStorePrefixOf C name ++ k) st.store }
+
+def step1 (st : St) (line : String) : St × String :=
   match fields line with
   | ["reset"] => (fresh, "ok")
+  | "key2" :: n :: fs =>
+    match HostKeys.all.find? (fun p => p.1 == n) with
+    | none => (st, "bad-op")
+    | some (_, T) =>
+      let k := fieldCount T.params
+      match parseArgs T.params (fs.take k), parseArgs T.params (fs.drop (k + 1)) with
+      | some a, some b =>
+        match render T a, render T b with
+        | some ka, some kb => (st, hex ka ++ " " ++ hex kb)
+        | _, _ => (st, "bad-op")
+      | _, _ => (st, "bad-op")
+  | ["heightstr", r, h] =>
+    match u64? r, u64? h with
+    | some r, some h => (st, match render Parsers.heightString [.h r h] with | some s => hex s | none => "bad-op")
+    | _, _ => (st, "bad-op")
+  | ["parseheight", s] =>
+    match unhex s with
+    | some s => (st, match parseHeightP Parsers.parseHeight s with | some (r, h) => "ok " ++ toString r.toNat ++ "-" ++ toString h.toNat | none => "err")
+    | none => (st, "bad-op")
+  | ["iterkeyrt", cl, r, h] =>
+    match u64? r, u64? h with
+    | some r, some h =>
+      let (T, p) := if cl = "tm" then (HostKeys.tm_iterationKey, Parsers.tmHeightFromIterKey)
+        else if cl = "bsc" then (HostKeys.consensusStateKey, Parsers.bscHeightFromIterKey)
+        else (HostKeys.consensusStateKey, Parsers.ethHeightFromIterKey)
+      match render T [.h r h] with
+      | some k => (st, showHeight (heightFromIterKey p k))
+      | none => (st, "bad-op")
+    | _, _ => (st, "bad-op")
+  | ["hfk", cl, k] =>
+    match unhex k with
+    | none => (st, "bad-op")
+    | some k =>
+      if cl = "tm" then (st, showHeight (heightFromIterKey Parsers.tmHeightFromIterKey k))
+      else if cl = "bsc" then (st, showHeight (heightFromIterKey Parsers.bscHeightFromIterKey k))
+      else if cl = "eth" then (st, showHeight (heightFromIterKey Parsers.ethHeightFromIterKey k))
+      else (st, "bad-op")
+  | ["tmgetiter", a, r, h] =>
+    match unhex a, u64? r, u64? h with
+    | some a, some r, some h =>
+      match render HostKeys.tm_iterationKey [.h r h] with
+      | some k => (st, match cget st a k with | some v => showSV v | none => "none")
+      | none => (st, "bad-op")
+    | _, _, _ => (st, "bad-op")
+  | ["bscsigner", a, r, h, v] =>
+    match unhex a, u64? r, u64? h, unhex v with
+    | some a, some r, some h, some v =>
+      match render HostKeys.bsc_keyRecentSinger [.h r h] with
+      | some k => ({ st with store := storeSet (clientStorePrefixOf C a ++ k) (.raw v) st.store }, "ok")
+      | none => (st, "bad-op")
+    | _, _, _, _ => (st, "bad-op")
+  | ["bscsigners", a] =>
+    match unhex a, Parsers.signerKeyParsers.find? (fun p => p.fn == "GetRecentSigners") with
+    | some a, some sp =>
+      -- a failing ParseHeight makes the whole call return (nil, err)
+      let items := (prefixIter (clientStorePrefixOf C a ++ C.recentSignersPrefix) st.store).map
+        (fun kv => (kv.1.drop (clientStorePrefixOf C a).length, kv.2))
+      let rec go : List (Bytes × SV) → List String → String
+        | [], acc => okList acc.reverse
+        | kv :: r, acc =>
+          match parseSignerKey sp Parsers.parseHeight kv.1 with
+          | .ok (rv, h) => go r ((toString rv.toNat ++ "-" ++ toString h.toNat ++ ":" ++ showSV kv.2) :: acc)
+          | .err _ => "err"
+          | .panic _ => "panic"
+      (st, go items [])
+    | _, _ => (st, "bad-op")
+  | ["bscdelsigners", a] =>
+    match unhex a with
+    | some a =>
+      let items := (prefixIter (clientStorePrefixOf C a ++ C.recentSignersPrefix) st.store).map
+        (fun kv => (kv.1.drop (clientStorePrefixOf C a).length, kv.2))
+      delSigners a items st
+    | none => (st, "bad-op")
+  | ["ethsetroot", a, n, root, hh] =>
+    match unhex a, u64? n, unhex root, unhex hh with
+    | some a, some n, some root, some hh =>
+      match render HostKeys.eth_ethRootMainKey [.hash root, .n n], render HostKeys.eth_ethHeaderIndexKey [.hash hh, .n n] with
+      | some k, some v => ({ st with store := storeSet (clientStorePrefixOf C a ++ k) (.raw v) st.store }, "ok")
+      | _, _ => (st, "bad-op")
+    | _, _, _, _ => (st, "bad-op")
+  | ["ethgetroot", a, root, n] =>
+    match unhex a, unhex root, u64? n with
+    | some a, some root, some n =>
+      match render HostKeys.eth_ethRootMainKey [.hash root, .n n] with
+      | some k => (st, match cget st a k with | some v => showSV v | none => "none")
+      | none => (st, "bad-op")
+    | _, _, _ => (st, "bad-op")
   | "pack" :: n :: fs =>
     match binding? n with
     | none => (st, "bad-op")
@@ -169,7 +287,7 @@ def step (st : St) (line : String) : St × String :=
     | none => (st, "bad-op")
   | ["parsepath", h] =>
     match unhex h with
-    | some s => (st, match parsePath s with | .ok (a, b) => "ok " ++ hex a ++ " " ++ hex b | _ => "err")
+    | some s => (st, match parsePathP Parsers.parsePath s with | .ok (a, b) => "ok " ++ hex a ++ " " ++ hex b | .err _ => "err" | .panic _ => "panic")
     | none => (st, "bad-op")
   | ["pset", fam, a, b, n, v] =>
     match famKey? fam, unhex a, unhex b, u64? n, unhex v with
@@ -228,7 +346,7 @@ def step (st : St) (line : String) : St × String :=
     | none => (st, "bad-op")
     | some p =>
       (st, visit (prefixIter p st.store) (fun kv =>
-        match parseHashesKey kv.1 with
+        match parseHashesKeyP Parsers.iterateHashes kv.1 with
         | .ok (a, b, n) => .ok (some (hex a ++ ":" ++ hex b ++ ":" ++ toString n.toNat ++ ":" ++ showSV kv.2))
         | .err e => .err e
         | .panic s => .panic s))
@@ -245,7 +363,7 @@ def step (st : St) (line : String) : St × String :=
       match render s.prefixT [.s a, .s b] with
       | some pre =>
         (st, visit (prefixScan pre st.store) (fun kv =>
-          match parseHashesKey kv.1 with
+          match parseHashesKeyP Parsers.iterateHashes kv.1 with
           | .ok (a, b, n) => .ok (some (hex a ++ ":" ++ hex b ++ ":" ++ toString n.toNat ++ ":" ++ showSV kv.2))
           | .err e => .err e
           | .panic s => .panic s))
@@ -292,7 +410,7 @@ def step (st : St) (line : String) : St × String :=
     | _, _, _ => (st, "bad-op")
   | ["iseq"] =>
     (st, visit (prefixIter C.nextSeqSendPrefix st.store) (fun kv =>
-      match parsePath kv.1 with
+      match parsePathP Parsers.parsePath kv.1 with
       | .ok (a, b) =>
         match kv.2 with
         | .raw v =>
@@ -330,7 +448,7 @@ def step (st : St) (line : String) : St × String :=
     | none => (st, "bad-op")
     | some a =>
       (st, visit (clientIter st a C.iterateConsensusStatePrefix) (fun kv =>
-        match tmHeightFromIterKey C kv.1 with
+        match heightFromIterKey Parsers.tmHeightFromIterKey kv.1 with
         | .ok (r, h) => .ok (some (toString r.toNat ++ "-" ++ toString h.toNat))
         | .err e => .err e
         | .panic s => .panic s))
@@ -341,13 +459,19 @@ def step (st : St) (line : String) : St × String :=
       | some a =>
         (st, visit (clientIter st a C.consensusStatePrefix) (fun kv =>
           if evmIsConsKey C kv.1 then
-            match evmHeightFromKey C kv.1 with
+            match heightFromIterKey (if op = "bscasc" then Parsers.bscHeightFromIterKey else Parsers.ethHeightFromIterKey) kv.1 with
             | .ok (r, h) => .ok (some (toString r.toNat ++ "-" ++ toString h.toNat))
             | .err e => .err e
             | .panic s => .panic s
           else .ok none))
     else (st, "bad-op")
   | _ => (st, "bad-op")
+
+/-- `discard <op>`: the op runs on a cache context that is dropped — its answer is reported, the state is unchanged -/
+def step (st : St) (line : String) : St × String :=
+  match fields line with
+  | "discard" :: rest => (st, (step1 st (joinWith " " rest)).2)
+  | _ => step1 st line
 
 def main : IO Unit := TM.Driver.runStdin step fresh
 
